@@ -1244,13 +1244,6 @@ def atomic_ops(it, args, callee):
     raise Unsupported('atomic ' + op)
 
 
-@pattern(r'^(std::thread::)?LocalKey::<.*>::with::<.*>$')
-def localkey_with(it, args, callee):
-    key, f = args
-    # a thread-local key: its storage is a per-(thread, key) static cell, initialised lazily
-    raise Unsupported('thread_local! storage (LocalKey::with) is not modelled')
-
-
 @pattern(r'^(std::sync::)?(Once)::(new|call_once|is_completed)(::<.*>)?$')
 def std_once(it, args, callee):
     op = re.search(r'Once::(\w+)', callee).group(1)
@@ -1352,3 +1345,289 @@ def box_deref(it, args, callee):
 @pattern(r'^<&(mut )?.* as Deref(Mut)?>::deref(_mut)?$')
 def ref_deref(it, args, callee):
     return rd(args[0])
+
+
+# =============================================================================== thread_local! (LocalKey / LazyStorage)
+
+@pattern(r'^(std::thread::)?LocalKey::<.*>::new$')
+def localkey_new(it, args, callee):
+    a = args[0]
+    what = a.what if isinstance(a, Opaque) else repr(a)
+    return Agg('LocalKey', (what,))
+
+
+@pattern(r'^(std::thread::)?LocalKey::<.*>::(with|try_with)::<.*>$')
+def localkey_with2(it, args, callee):
+    key = deref_all(args[0])
+    f = args[1]
+    if not (isinstance(key, Agg) and key.ty == 'LocalKey'):
+        raise Unsupported('LocalKey::with on %r' % (key,))
+    name = key.f[0]
+    if name.startswith('const '):
+        name = name[len('const '):]
+    # the accessor generated by thread_local!:  <KEY>::{constant#0}::{closure#0|1}
+    acc = None
+    for n, b in it.mir.bodies.items():
+        base = n.split('::{closure#')[0]
+        if '::{closure#' in n and (base == name or name.endswith('::' + base) or base.endswith('::' + name)) and n.count('{closure#') == 1:
+            acc = b
+            break
+    if acc is None:
+        raise Unsupported('thread_local accessor not found for ' + name)
+    ptr = it.run_body(acc, [Ref(Cell(Closure('tls-accessor', ()), 'env'), ()), NONE])
+    r = it.call_callable(f, [ptr])
+    return Ok(r) if '::try_with::' in callee else r
+
+
+@pattern(r'^std::thread::local_impl::LazyStorage::<.*>::new$')
+def lazystorage_new(it, args, callee):
+    return OnceV(0, None, None)
+
+
+@pattern(r'^std::thread::local_impl::LazyStorage::<.*>::get_or_init::<.*>$')
+def lazystorage_get_or_init(it, args, callee):
+    r, init_opt, f = args
+    o = rd(r)
+    if o.state != 2:
+        v = None
+        if isinstance(init_opt, Enum) and init_opt.name == 'Some':
+            slot = init_opt.f[0]
+            cur = rd(slot)
+            if cur.name == 'Some':
+                v = cur.f[0]
+                wr(slot, NONE)
+        if v is None:
+            v = it.call_callable(f, [])
+        wr(r, OnceV(2, v, None))
+    return Ref(r.cell, r.path + (('oc',),))
+
+
+@pattern(r'^(std|core)::mem::needs_drop::<.*>$')
+def mem_needs_drop(it, args, callee):
+    return True
+
+
+# =============================================================================== fmt: format!/write!/to_string via Display
+
+class FmtError(Exception):
+    pass
+
+
+def _render_template(it, tmpl, fargs, out):
+    """new compact fmt template: n<0x80 => literal of n bytes; 0xC0 => next argument, default spec; 0 => end"""
+    i = 0
+    ai = 0
+    n = len(tmpl)
+    while i < n:
+        b = tmpl[i]
+        i += 1
+        if b == 0:
+            break
+        if b == 0xC0:
+            if ai >= len(fargs):
+                raise Unsupported('fmt template refers to a missing argument')
+            _display(it, fargs[ai], out)
+            ai += 1
+        elif b < 0x80:
+            out.extend(tmpl[i:i + b])
+            i += b
+        else:
+            raise Unsupported('fmt template with formatting options (0x%02x)' % b)
+
+
+def _display(it, farg, out):
+    kind, ref = farg.f
+    v = ref
+    depth = 0
+    while isinstance(v, Ref) and depth < 8:
+        inner = rd(v)
+        if isinstance(inner, (Enum, Agg)) and getattr(inner, 'ty', None) in it.src.crate_types:
+            break
+        v = inner
+        depth += 1
+    if isinstance(v, Ref):
+        val = rd(v)
+        trait = 'Display' if kind == 'display' else 'Debug'
+        for (b, ity, itr, _) in it.by_method.get('fmt', []):
+            if ity == val.ty and itr == trait:
+                fcell = Cell(Agg('Formatter', (out,)), 'formatter')
+                res = it.run_body(b, [v, Ref(fcell, ())])
+                return
+        raise Unsupported('no %s impl found for %s' % (trait, val.ty))
+    if isinstance(v, Str):
+        if kind == 'debug':
+            raise Unsupported('Debug rendering of a string')
+        out.extend(v.b)
+        return
+    if isinstance(v, DecStr):
+        out.extend(sbytes(v, 'format'))
+        return
+    if isinstance(v, bool):
+        out.extend(b'true' if v else b'false')
+        return
+    if isinstance(v, int):
+        out.extend(str(v).encode())
+        return
+    if isinstance(v, Dec):
+        if is_sym(v.m):
+            raise OutsideModel('formatting a symbolic decimal')
+        out.extend(M.dec_to_text(v).encode())
+        return
+    if isinstance(v, ArcV) or isinstance(v, Enum) or isinstance(v, Agg):
+        val = v
+        trait = 'Display' if kind == 'display' else 'Debug'
+        ty = getattr(val, 'ty', None)
+        for (b, ity, itr, _) in it.by_method.get('fmt', []):
+            if ity == ty and itr == trait:
+                fcell = Cell(Agg('Formatter', (out,)), 'formatter')
+                it.run_body(b, [Ref(Cell(val, 'fmt-arg'), ()), Ref(fcell, ())])
+                return
+    if is_sym(v):
+        raise OutsideModel('formatting a symbolic scalar')
+    raise Unsupported('fmt of %r' % (v,))
+
+
+# remove the blanket "fmt machinery is unsupported" patterns of models.py
+M.PATTERNS[:] = [(rx, fn) for (rx, fn) in M.PATTERNS if fn is not M.fmt_any]
+for _k in ('format', 'std::fmt::format', 'alloc::fmt::format'):
+    M.MODELS.pop(_k, None)
+
+
+@pattern(r"^core::fmt::rt::Argument::<'_>::new_(display|debug)::<.*>$")
+def fmt_argument_new(it, args, callee):
+    return Agg('FmtArg', ('display' if '::new_display::<' in callee else 'debug', args[0]))
+
+
+@pattern(r"^(core::fmt::|std::fmt::)?Arguments::<'_>::new::<.*>$")
+def fmt_arguments_new(it, args, callee):
+    tmpl = rd(args[0]) if isinstance(args[0], Ref) else args[0]
+    arr = rd(args[1]) if isinstance(args[1], Ref) else args[1]
+    return Agg('FmtArgs', (tuple(tmpl.items), tuple(arr.items)))
+
+
+@pattern(r"^(core::fmt::|std::fmt::)?Arguments::<'_>::(from_str|new_const)(::<.*>)?$")
+def fmt_arguments_from_str(it, args, callee):
+    s = deref_all(args[0])
+    if isinstance(s, Str):
+        return Agg('FmtArgs', ((), (), tuple(s.b)))
+    raise Unsupported('Arguments::from_str of %r' % (s,))
+
+
+def _render_args(it, fa, out):
+    if len(fa.f) == 3:
+        out.extend(fa.f[2])
+    else:
+        _render_template(it, fa.f[0], fa.f[1], out)
+
+
+@model('format', 'std::fmt::format', 'alloc::fmt::format')
+def fmt_format2(it, args, callee):
+    out = []
+    _render_args(it, args[0], out)
+    return Str(tuple(out))
+
+
+@pattern(r"^(core::fmt::|std::fmt::)?Formatter::<'_>::write_fmt$")
+def formatter_write_fmt(it, args, callee):
+    f = rd(args[0])
+    _render_args(it, args[1], f.f[0])
+    return Ok(UNIT)
+
+
+@pattern(r"^(core::fmt::|std::fmt::)?Formatter::<'_>::write_str$")
+def formatter_write_str(it, args, callee):
+    f = rd(args[0])
+    f.f[0].extend(sbytes(as_str(args[1]), 'write_str'))
+    return Ok(UNIT)
+
+
+@pattern(r"^<(core::fmt::|std::fmt::)?Formatter<'_> as (core::fmt::|std::fmt::)?Write>::write_(str|char)$")
+def formatter_write_trait(it, args, callee):
+    f = rd(args[0])
+    if callee.endswith('write_char'):
+        f.f[0].extend(M.encode_char(it, args[1]))
+    else:
+        f.f[0].extend(sbytes(as_str(args[1]), 'write_str'))
+    return Ok(UNIT)
+
+
+@pattern(r"^<(std::string::)?String as (core::fmt::|std::fmt::)?Write>::write_(str|char|fmt)$")
+def string_write_trait(it, args, callee):
+    s = rd(args[0])
+    out = list(sbytes(s, 'write'))
+    if callee.endswith('write_char'):
+        out.extend(M.encode_char(it, args[1]))
+    elif callee.endswith('write_fmt'):
+        _render_args(it, args[1], out)
+    else:
+        out.extend(sbytes(as_str(args[1]), 'write_str'))
+    wr(args[0], Str(tuple(out)))
+    return Ok(UNIT)
+
+
+@pattern(r"^(core::fmt::|std::fmt::)?Formatter::<'_>::(debug_tuple_field\d_finish|debug_struct_field\d_finish|pad|pad_integral|debug_list|debug_struct|debug_tuple)$")
+def formatter_debug(it, args, callee):
+    raise Unsupported('Debug formatting helpers are not modelled')
+
+
+@pattern(r'^<.* as ToString>::to_string$')
+def generic_to_string(it, args, callee):
+    v = args[0]
+    out = []
+    _display(it, Agg('FmtArg', ('display', v)), out)
+    return Str(tuple(out))
+
+
+@pattern(r'^core::str::<impl str>::(trim_start_matches|trim_end_matches|trim_matches)::<.*>$')
+def str_trim_matches(it, args, callee):
+    bs = sbytes(as_str(args[0]), 'trim_matches')
+    pat = _pattern_of(it, args[1], callee)
+    which = re.search(r'::(trim_\w+)::<', callee).group(1)
+    lo, hi = 0, len(bs)
+    if which in ('trim_start_matches', 'trim_matches'):
+        while lo < hi:
+            ok, w = _match_at(it, bs, lo, pat)
+            if not ok or w == 0:
+                break
+            lo += w
+    if which in ('trim_end_matches', 'trim_matches'):
+        if pat[0] == 'str':
+            n = len(pat[1])
+            while n and hi - n >= lo and it.truth(M.str_eq(it, bs[hi - n:hi], pat[1])):
+                hi -= n
+        else:
+            starts = [s_ for s_ in _char_starts(it, bs) if s_ >= lo]
+            while starts and hi > lo:
+                ok, w = _match_at(it, bs, starts[-1], pat)
+                if not ok:
+                    break
+                hi = starts.pop()
+    return Str(bs[lo:hi])
+
+
+@pattern(r'^core::str::<impl str>::(strip_prefix|strip_suffix)::<.*>$')
+def str_strip(it, args, callee):
+    bs = sbytes(as_str(args[0]), 'strip')
+    pat = _pattern_of(it, args[1], callee)
+    if 'strip_prefix' in callee:
+        if not bs and pat[0] != 'str':
+            return NONE
+        if pat[0] == 'str' and len(pat[1]) == 0:
+            return Some(Str(bs))
+        ok, w = _match_at(it, bs, 0, pat) if bs else (False, 0)
+        return Some(Str(bs[w:])) if ok else NONE
+    if pat[0] == 'str':
+        n = len(pat[1])
+        if n <= len(bs) and it.truth(M.str_eq(it, bs[len(bs) - n:], pat[1])):
+            return Some(Str(bs[:len(bs) - n]))
+        return NONE
+    starts = _char_starts(it, bs)
+    if not starts:
+        return NONE
+    ok, w = _match_at(it, bs, starts[-1], pat)
+    return Some(Str(bs[:starts[-1]])) if ok else NONE
+
+
+@pattern(r'^core::str::<impl str>::(split|splitn|rsplit|split_whitespace|lines|split_terminator|split_once|rsplit_once|char_indices_rev|matches|match_indices|replace|replacen|repeat)(::<.*>)?$')
+def str_split_family(it, args, callee):
+    raise Unsupported('str API not modelled: ' + callee[-40:])
